@@ -25,6 +25,9 @@ import A2Verif.Drv.C17
 import A2Verif.Drv.C18
 import A2Verif.Drv.C19
 import A2Verif.Drv.C20
+import A2Verif.Drv.C08Trk
+import A2Verif.Drv.C12Fs
+import A2Verif.Drv.C06Img
 /-!
 Registration of driver families.  Stateless family `cNN` lives in `A2Verif/Drv/CNN.lean` and exports
 `handle : List String → String`.  The file-system family `fs` is stateful (`Drv.Fs`).
@@ -81,6 +84,9 @@ def dispatch (st : State) (toks : List String) : State × String :=
   | "c18" :: rest => (st, C18.handle rest)
   | "c19" :: rest => (st, C19.handle rest)
   | "c20" :: rest => (st, C20.handle rest)
+  | "c08trk" :: rest => (st, C08Trk.handle rest)
+  | "c12fs" :: rest => (st, C12Fs.handle rest)
+  | "c06img" :: rest => (st, C06Img.handle rest)
   | _ => (st, "bad-request")
 
 end A2Verif.Drv
